@@ -105,6 +105,26 @@ class FileObj:
     def close(self):
         pass
 
+    def _text_rows(self):
+        self.fs._op("read", self.path)
+        rows = []
+        for r in self.fs.files[self.path]:
+            for c in r:
+                if not isinstance(c, builtins.str):
+                    from .sym import Unsupported
+                    raise Unsupported("text read of a file holding symbolic cells")
+            rows.append("\t".join(r) + "\n")
+        return rows
+
+    def read(self, *a):
+        return "".join(self._text_rows())
+
+    def readlines(self):
+        return self._text_rows()
+
+    def __iter__(self):
+        return iter(self._text_rows())
+
 
 class _Writer:
     def __init__(self, f):
